@@ -902,7 +902,8 @@ class World:
                 adm.append(c)
                 if m is not None and (m_min is None or m < m_min):
                     m_min = m
-            if m_min is not None:
+            if m_min is not None and mode != 'nocache':
+                # (a non-caching parse has no excuse: it must show what the file contains)
                 for c, m in self.versions.get(f, []):
                     if m is not None and m >= m_min:
                         adm.append(c)
